@@ -1,18 +1,14 @@
 #![no_main]
 //! C05 through libFuzzer: byte 0 selects the kind of value, the rest is the choice tape from which
 //! a well-formed value is built (wire.rs); oracle = cfdp_verif::props::c05::roundtrip.
+use cfdp_verif::props::c05::{fuzz_case, roundtrip};
 use libfuzzer_sys::fuzz_target;
-use cfdp_verif::props::c05::{roundtrip, RtCase};
-
-const KINDS: [&str; 8] = ["pdu", "pdu", "pdu", "user_op", "tlv", "fs_response", "report", "header"];
 
 fuzz_target!(|data: &[u8]| {
-    if data.is_empty() {
-        return;
-    }
-    let case = RtCase { kind: KINDS[data[0] as usize % KINDS.len()].to_string(), flags: 0, ew: 1, sw: 1, tape: data[1..].to_vec() };
-    if let Err((key, msg)) = roundtrip(&case) {
-        eprintln!("C05-FUZZ-FAIL key={key}: {msg}");
-        std::process::abort();
+    if let Some(case) = fuzz_case(data) {
+        if let Err((key, msg)) = roundtrip(&case) {
+            eprintln!("C05-FUZZ-FAIL key={key}: {msg}");
+            std::process::abort();
+        }
     }
 });
